@@ -45,15 +45,53 @@ func ModelSafe(u *Universe, d *Desc, v reflect.Value) bool {
 		return ModelSafe(u, d.Elem, v.FieldByName("Left"))
 	case KEitherRef, KRef:
 		return ModelSafe(u, d.Elem, v.FieldByName("Value"))
-	case KVmStack:
+	case KVmStack, KChain:
 		for i := 0; i < v.Len(); i++ {
 			if !ModelSafe(u, d.Elem, v.Index(i)) {
 				return false
 			}
 		}
 		return true
-	case KDictE:
-		return access(access(v.FieldByName("m")).FieldByName("keys")).Len() == 0
+	case KDictE, KDict:
+		m := v
+		if d.Kind == KDictE {
+			m = access(v.FieldByName("m"))
+		}
+		vals := access(m.FieldByName("values"))
+		if access(m.FieldByName("keys")).Len() != vals.Len() {
+			return false
+		}
+		for i := 0; i < vals.Len(); i++ {
+			if !ModelSafe(u, d.Elem2, vals.Index(i)) {
+				return false
+			}
+		}
+		return true
+	case KCustom:
+		return ModelSafe(u, d.Elem, v)
+	case KBinTree:
+		vals := v.FieldByName("Values")
+		for i := 0; i < vals.Len(); i++ {
+			if !ModelSafe(u, d.Elem, vals.Index(i)) {
+				return false
+			}
+		}
+		return true
+	case KDictAugE, KDictAug:
+		m := v
+		if d.Kind == KDictAugE {
+			if !ModelSafe(u, d.Elem3, v.FieldByName("extra")) {
+				return false
+			}
+			m = access(v.FieldByName("m"))
+		}
+		vals := access(m.FieldByName("values"))
+		for i := 0; i < vals.Len(); i++ {
+			if !ModelSafe(u, d.Elem2, vals.Index(i)) {
+				return false
+			}
+		}
+		return true
 	case KEncErr, KOpaque, KUnsupported:
 		return false
 	}
